@@ -9,6 +9,9 @@
 package downloader
 
 import (
+	"sync/atomic"
+	"time"
+
 	"github.com/youchainhq/go-youchain/common"
 	"github.com/youchainhq/go-youchain/core/types"
 	"github.com/youchainhq/go-youchain/trie"
@@ -36,3 +39,51 @@ func (v *VerifTrieSync) Account(blob []byte) {
 	v.s.numUncommitted++
 	v.s.bytesUncommitted += len(blob)
 }
+
+// ---------------------------------------------------------------------------------------------------
+// End-to-end access to the real trie-sync machinery (trieFetcher / runTrieSync / trieSync.run+loop /
+// assignTasks / process) for the C19 harness: a real Downloader whose chain is nothing but the destination
+// database, started the way synchronise() starts a cycle. Peers are registered through the public
+// RegisterPeer / UnregisterPeer and answer through the public DeliverNodeData.
+
+type verifC19Chain struct {
+	BlockChain // nil: the trie sync uses nothing else
+	db         youdb.Database
+}
+
+func (c *verifC19Chain) IsUcon() bool                                     { return false }
+func (c *verifC19Chain) TrieBackingDb(kind types.TrieKind) youdb.Database { return c.db }
+
+// VerifNewLoopDownloader returns a real Downloader (trieFetcher running) writing tries to dst.
+func VerifNewLoopDownloader(dst youdb.Database, dropPeer func(id string)) *Downloader {
+	d := New(&verifC19Chain{db: dst}, nil, youdb.NewMemDatabase(), dropPeer, nil)
+	d.cancelCh = make(chan struct{}) // as synchronise() does for a sync cycle
+	return d
+}
+
+// VerifSetRTT sets the request round-trip estimate (request timeout = 3 * rtt / confidence).
+func (d *Downloader) VerifSetRTT(rtt time.Duration) {
+	atomic.StoreUint64(&d.rttEstimate, uint64(rtt))
+	atomic.StoreUint64(&d.rttConfidence, 1000000)
+}
+
+// VerifCancelCycle closes the sync cycle's cancel channel (Downloader.cancel).
+func (d *Downloader) VerifCancelCycle() { d.cancel() }
+
+// VerifLoopSync is a running trie sync.
+type VerifLoopSync struct{ ts *trieSync }
+
+// VerifStartSync launches syncState (state leaf callback) or syncVldTrie (plain trie) for root.
+func (d *Downloader) VerifStartSync(state bool, root common.Hash) *VerifLoopSync {
+	if state {
+		return &VerifLoopSync{ts: d.syncState(root)}
+	}
+	return &VerifLoopSync{ts: d.syncVldTrie(root)}
+}
+
+// Done is closed when the sync has ended; Err is what Wait() returns then.
+func (v *VerifLoopSync) Done() <-chan struct{} { return v.ts.done }
+func (v *VerifLoopSync) Err() error            { return v.ts.Wait() }
+
+// Cancel cancels this sync (trieSync.Cancel) and returns its result.
+func (v *VerifLoopSync) Cancel() error { return v.ts.Cancel() }
